@@ -84,8 +84,12 @@ def Request.print (req : Request) : String :=
   ++ (if req.waitTrigger != "" then "WaitTrigger: " ++ req.waitTrigger ++ "\n" else "")
   ++ (if req.waitObject != "" then "WaitObject: " ++ req.waitObject ++ "\n" else "")
   ++ (if req.waitTimeout > 0 then "WaitTimeout: " ++ toString req.waitTimeout ++ "\n" else "")
-  ++ (if req.waitConditionNegate then "WaitConditionNegate\n" else "")
+  ++ (if req.waitConditionNegate then "WaitConditionNegate:\n" else "")
   ++ (if req.authUser != "" then "AuthUser: " ++ req.authUser ++ "\n" else "")
+  -- wait conditions (single terms; groups of them are outside the modelled requests) come behind the user
+  ++ String.join (req.waitCondition.map fun f => match f with
+      | .leaf l _ => l.printLine "WaitCondition"
+      | .grp .. => "")
   ++ String.join (req.sort.map fun sf => "Sort: " ++ sf.name ++ (if sf.args != "" then " " ++ sf.args else "") ++ " " ++ (if sf.desc then "desc" else "asc") ++ "\n")
   ++ "\n"
 
